@@ -12,6 +12,19 @@ import numpy as np
 from vf import oracles
 from vf.common import Ctx
 
+META = {
+    "category": "exploration",
+    "text": "Generated point sets (6 input families incl. duplicates, per-coordinate ties, dominated points, +-inf; dims 1-5) are "
+            "pushed through the real compute_hypervolume / _fast_non_domination_rank (plain, n_below, constrained) / "
+            "_is_pareto_front / _solve_hssp and the TPE and NSGA-II call sites, and every result is judged by independent exact "
+            "oracles (inclusion-exclusion in rationals, O(n^2) front peeling, exhaustive C(n,k) subset search). Held on the "
+            "executions observed; no claim beyond n<=9 points.",
+    "note": "Trusted: the brute-force oracles in vf/oracles.py (two hypervolume oracles are cross-checked against each other at "
+            "run time); tolerance 1e-9 relative plus 64 ulp of the largest box for cancellation.",
+    "technique": "runtime monitoring: generated inputs + exact reference oracle on the real functions",
+    "design_ref": "DESIGN.md §3 C15",
+    "engines": ["oracles"],
+}
 SHARDS = {"quick": 8, "thorough": 16}
 WATCHDOG_S = {"quick": 600, "thorough": 3 * 3600}
 INF = float("inf")
